@@ -766,16 +766,18 @@ static void mode_zview(vh::Trace& tr, long runs, int stage, vh::Rng& rng) {
     const int ntang = rng.range(2, stage ? 9 : 7);
     shared_ptr<ProjDataInfo> info = ProjDataInfo::construct_proj_data_info(sc, 1, R - 1, nv, ntang, /*arc_corrected=*/true);
     auto* arc = dynamic_cast<const ProjDataInfoCylindricalArcCorr*>(info.get());
-    const int z = rng.range(0, 6), P = PQ[z][0], Q = PQ[z][1];
+    const int z = run % 16 == 15 ? 3 : rng.range(0, 6), P = PQ[z][0], Q = PQ[z][1];
     const int view = rng.coin() ? 0 : nv / 2;
     const int seg = rng.range(info->get_min_segment_num(), info->get_max_segment_num());
-    const int ox = rng.range(0, 3) == 0 ? 0 : rng.range(-6, 6), oy = rng.range(0, 3) == 0 ? 0 : rng.range(-6, 6);
+    const int ox = run % 16 == 15 || rng.range(0, 3) == 0 ? 0 : rng.range(-6, 6), oy = run % 16 == 15 || rng.range(0, 3) == 0 ? 0 : rng.range(-6, 6);
     const float bin = arc->get_tangential_sampling();
     const float zoom = (float)P / (float)Q, xoff = ox * bin / 4.F, yoff = oy * bin / 4.F;
     const int same = (ntang * P + Q - 1) / Q;
     const int on = std::max(1, same + rng.pick(std::vector<int>{ 0, 0, 1, 2, -1, -2 }));
-    const int olo = -(on / 2) + rng.pick(std::vector<int>{ 0, 0, 0, 1, -1 }), ohi = olo + on - 1;
+    int olo = -(on / 2) + rng.pick(std::vector<int>{ 0, 0, 0, 1, -1 }), ohi = olo + on - 1;
     Viewgram<float> in = info->get_empty_viewgram(view, seg);
+    const bool identity = run % 16 == 15;          // nothing to do: same sampling, range and no offset
+    if (identity) { olo = in.get_min_tangential_pos_num(); ohi = in.get_max_tangential_pos_num(); }
     std::vector<long long> vals;
     for (int a = in.get_min_axial_pos_num(); a <= in.get_max_axial_pos_num(); ++a)
       for (int t = in.get_min_tangential_pos_num(); t <= in.get_max_tangential_pos_num(); ++t) {
